@@ -1,31 +1,28 @@
-(* C04/Proofs.v — the lemmas behind the property theorems of C04/Properties.v. *)
-From XV Require Import lib.Bytes gen.NegTables C04.Model C04.Generic C04.Structure.
+(* C04/Proofs.v — the lemmas behind the property theorems of C04/Properties.v
+   (model of the repaired code: checked <success/> flush, ctx test after every negotiator
+   call, Ready cleared on every error return, bind error reply returns the error). *)
+From XV Require Import lib.Bytes gen.NegTables C04.Model C04.Generic C04.Structure C04.Fuel.
 
 (* ------------------------------------------------------------------ bits *)
 
-Definition NR (b : N) : Prop := is_ready b = false.
-
-Lemma is_ready_lor b m : N.land m st_Ready = 0%N -> is_ready (N.lor b m) = is_ready b.
+Lemma cleared_not_ready b : is_ready (N.ldiff b st_Ready) = false.
 Proof.
-  unfold is_ready, has. intro H. rewrite N.land_lor_distr_l, H, N.lor_0_r. reflexivity.
+  unfold is_ready, has. rewrite N.land_ldiff. reflexivity.
 Qed.
 
-Lemma secure_no_ready : N.land st_Secure st_Ready = 0%N.  Proof. reflexivity. Qed.
-Lemma authn_no_ready : N.land st_Authn st_Ready = 0%N.  Proof. reflexivity. Qed.
+(* ------------------------------------------------------------------ small helpers *)
 
-(* "Custom features reported no Ready in this run": no successful Negotiate of a custom
-   feature logged in the trace T carries the Ready bit. The built-in features are covered by
-   their own outcomes (Structure.builtin_outcome). *)
-Definition calm_run (cfg : config) (T : list event) : Prop :=
-  forall f m rs ft, In (ENegOk f m rs) T -> nth_error (c_feats cfg) f = Some ft ->
-                    f_kind ft = FCustom -> N.land m st_Ready = 0%N.
+Lemma nob_result A (p : prog A) pl w r w' : no_orbits p -> interp pl p w = (r, w') -> w_bits w' = w_bits w.
+Proof. intros Hp H. pose proof (no_orbits_bits pl Hp w) as Hb. rewrite H in Hb. exact Hb. Qed.
 
-Lemma extends_in {A} (T l : list A) x : extends T l -> In x l -> In x T.
-Proof. intros [new H] Hin. subst. apply in_or_app. right. exact Hin. Qed.
+Lemma wle_result A (p : prog A) pl w r w' : interp pl p w = (r, w') -> wle w w'.
+Proof. intro H. pose proof (interp_wle p pl w) as Hw. rewrite H in Hw. exact Hw. Qed.
 
-(* ------------------------------------------------------------------ run_feature *)
+Arguments nob_result {A p pl w r w'}.
+Arguments wle_result {A p pl w r w'}.
 
-(* the world after the two trailing steps of run_feature *)
+(* ------------------------------------------------------------------ run_feature: the mask of a failing step *)
+
 Definition after_neg (w1 : world) (f : nat) (o : outcome) : world :=
   mkW (w_ops w1) (w_script w1) (w_tls w1) (w_tlslayer w1) (w_hs w1) (w_wdead w1)
       (N.lor (w_bits w1) (fst o)) (w_calls w1) (ENegOk f (fst o) (snd o) :: w_trace w1).
@@ -42,7 +39,7 @@ Proof.
     reflexivity.
 Qed.
 
-(* the mask of a failing step is never applied *)
+(* negotiateFeatures applies the mask a step returns only when the step returned no error *)
 Lemma run_feature_err_bits pl n recv f ft pre w r w' :
   interp pl (run_feature n recv f ft pre) w = (r, w') -> (forall o, r <> ROk o) -> w_bits w' = w_bits w.
 Proof.
@@ -53,948 +50,199 @@ Proof.
   exfalso. eapply Hr. reflexivity.
 Qed.
 
-Lemma run_feature_ok pl n recv f ft pre w o w' :
-  interp pl (run_feature n recv f ft pre) w = (ROk o, w') ->
-  w_bits w' = N.lor (w_bits w) (fst o) /\
-  builtin_outcome (f_kind ft) o /\
-  In (ENegOk f (fst o) (snd o)) (w_trace w') /\
-  wle w w'.
+(* ------------------------------------------------------------------ run = finish (interp session) *)
+
+Definition the_session (cfg : config) (clear tls : list sitem) : prog unit :=
+  session (fuel_of clear tls) (fuel_of clear tls) cfg (mkNS true false).
+
+Lemma run_unfold cfg pl bits clear tls calls :
+  run cfg pl bits clear tls calls = finish (interp pl (the_session cfg clear tls) (init_world bits clear tls calls)).
+Proof. reflexivity. Qed.
+
+Lemma finish_ok A (x : res A * world) a w : finish x = (ROk a, w) -> x = (ROk a, w).
+Proof. destruct x as [[a0| | |] w0]; unfold finish; cbn; intro H; inversion H; reflexivity. Qed.
+
+Lemma finish_ops A (x : res A * world) : w_ops (snd (finish x)) = w_ops (snd x).
+Proof. destruct x as [[a0| | |] w0]; reflexivity. Qed.
+
+Lemma finish_trace A (x : res A * world) : w_trace (snd (finish x)) = w_trace (snd x).
+Proof. destruct x as [[a0| | |] w0]; reflexivity. Qed.
+
+Lemma finish_fst A (x : res A * world) : fst (finish x) = fst x.
+Proof. destruct x as [[a0| | |] w0]; reflexivity. Qed.
+
+Lemma finish_not_ready A (x : res A * world) r w :
+  finish x = (r, w) -> (forall a, r <> ROk a) -> is_ready (w_bits w) = false.
 Proof.
-  rewrite run_feature_interp. intro H.
-  pose proof (no_orbits_bits pl (no_orbits_feed (negotiate_feature_nob n recv ft) pre) (set_trace w (ENegStart f))) as Hb.
-  pose proof (interp_wle (feed pre (negotiate_feature n recv ft)) pl (set_trace w (ENegStart f))) as Hw.
-  destruct (interp pl (feed pre (negotiate_feature n recv ft)) (set_trace w (ENegStart f))) as [[o1| | |] w1] eqn:E;
-    inversion H; subst. cbn [snd] in Hb, Hw.
-  split; [|split; [|split]].
-  - cbn. rewrite Hb. reflexivity.
-  - eapply rets_ok; [|exact E]. apply rets_feed. apply negotiate_feature_rets.
-  - cbn. left. reflexivity.
-  - eapply wle_trans; [apply wle_set_trace|]. eapply wle_trans; [exact Hw|].
-    constructor; cbn; [lia | apply extends_cons | exists []; reflexivity].
+  destruct x as [[a0| | |] w0]; unfold finish; cbn; intros H Hr; inversion H; subst;
+    try apply cleared_not_ready.
+  exfalso. eapply Hr. reflexivity.
 Qed.
 
-(* a feature other than the receiving side's SASL does not survive the failing operation *)
-Lemma run_feature_alive pl k n recv f ft pre w o w' :
-  p_fail pl k = true -> (f_kind ft = FSASL -> recv = false) ->
-  alive k w -> interp pl (run_feature n recv f ft pre) w = (ROk o, w') -> alive k w'.
-Proof.
-  intros Hf Hk Ha H. eapply (alive_ok (p := run_feature n recv f ft pre)); [exact Hf | | exact Ha | exact H].
-  apply run_feature_wok. intros E R. rewrite (Hk E) in R. discriminate.
-Qed.
-
-(* ------------------------------------------------------------------ small helpers *)
-
-Lemma nob_result A (p : prog A) pl w r w' : no_orbits p -> interp pl p w = (r, w') -> w_bits w' = w_bits w.
-Proof. intros Hp H. pose proof (no_orbits_bits pl Hp w) as Hb. rewrite H in Hb. exact Hb. Qed.
-
-Lemma wle_result A (p : prog A) pl w r w' : interp pl p w = (r, w') -> wle w w'.
-Proof. intro H. pose proof (interp_wle p pl w) as Hw. rewrite H in Hw. exact Hw. Qed.
-
-Arguments nob_result {A p pl w r w'}.
-Arguments wle_result {A p pl w r w'}.
-Arguments run_feature_err_bits {pl n recv f ft pre w r w'}.
-Arguments run_feature_ok {pl n recv f ft pre w o w'}.
-
-Lemma read_tok_bits pl w : w_bits (snd (read_tok pl w)) = w_bits w.
-Proof. apply read_tok_from_bits. Qed.
-
-(* ------------------------------------------------------------------ the receiving side's selection loop *)
-
-(* one iteration up to the point where the selected feature is run *)
-Definition recv_pick (n : nat) (cfg : config) (l : flist) (negotiated : list nat)
-  : prog (nat * feature * bool * list tok) :=
-  Rd (fun t =>
-    match t with
-    | Open c =>
-        sel <- match c with
-               | KIq _ =>
-                   t2 <- trim_space n ;;
-                   match t2 with
-                   | Open (KSel f e) => Ret (f, [t; t2])
-                   | _ => Fail
-                   end
-               | KSel f e => Ret (f, [t])
-               | _ => Fail
-               end ;;
-        let f := fst sel in
-        bits <- get_bits ;;
-        match cache_find f (fl_cache l), nth_error (c_feats cfg) f with
-        | Some req, Some ft =>
-            if negb (mem f negotiated) && neg_of ft && allowed ft bits
-            then Ret (f, ft, req, snd sel) else Fail
-        | _, _ => Fail
-        end
-    | _ => Fail
-    end).
-
-Definition recv_rest (n : nat) (cfg : config) (l : flist) (negotiated : list nat)
-  (x : nat * feature * bool * list tok) : prog outcome :=
-  let '(f, ft, req, pre) := x in
-  o <- run_feature n true f ft pre ;;
-  match snd o with
-  | RSNone => if req then Ret (after_loop l o) else recv_loop n cfg l (f :: negotiated)
-  | _ => Ret o
-  end.
-
-Lemma recv_loop_unfold pl n cfg l negotiated w :
-  interp pl (recv_loop (S n) cfg l negotiated) w =
-  interp pl (x <- recv_pick n cfg l negotiated ;; recv_rest n cfg l negotiated x) w.
-Proof.
-  unfold recv_pick. cbn [recv_loop bind interp].
-  destruct (read_tok pl w) as [[t|] w1]; [|reflexivity].
-  destruct t as [c| | | |]; try reflexivity.
-  rewrite !interp_bind.
-  match goal with |- context [interp pl ?sel w1] => destruct (interp pl sel w1) as [[[f toks]| | |] w2] end;
-    try reflexivity.
-  unfold get_bits. cbn [bind interp fst snd].
-  destruct (cache_find f (fl_cache l)) as [req|]; [|reflexivity].
-  destruct (nth_error (c_feats cfg) f) as [ft|]; [|reflexivity].
-  destruct (negb (mem f negotiated) && neg_of ft && allowed ft (w_bits w2)); reflexivity.
-Qed.
-
-Lemma recv_pick_nob n cfg l negotiated : no_orbits (recv_pick n cfg l negotiated).
-Proof. unfold recv_pick. pose proof (trim_space_nob n). struct. Qed.
-
-Lemma recv_pick_wok P n cfg l negotiated : wru_ok P (recv_pick n cfg l negotiated).
-Proof. unfold recv_pick. pose proof (trim_space_wok P n). struct. Qed.
-
-Lemma recv_pick_rets n cfg l negotiated :
-  rets (fun x => let '(f, ft, req, _) := x in
-                 cache_find f (fl_cache l) = Some req /\ nth_error (c_feats cfg) f = Some ft)
-       (recv_pick n cfg l negotiated).
-Proof.
-  unfold recv_pick. unfold get_bits. cbn [bind].
-  constructor. intro t. destruct t as [c| | | |]; try constructor.
-  apply rets_bind. intros [f toks]. cbn [fst snd]. constructor. intro bits.
-  destruct (cache_find f (fl_cache l)) as [req|] eqn:E1; [|constructor].
-  destruct (nth_error (c_feats cfg) f) as [ft|] eqn:E2; [|constructor].
-  destruct (negb (mem f negotiated) && neg_of ft && allowed ft bits); constructor.
-  split; assumption.
-Qed.
-
-(* an event logged before w2 is in the final trace T *)
-Lemma in_final_trace A (p : prog A) pl w2 r w' T e :
-  interp pl p w2 = (r, w') -> extends T (w_trace w') -> In e (w_trace w2) -> In e T.
-Proof.
-  intros H Hext Hin. eapply extends_in; [exact Hext|].
-  eapply extends_in; [apply (wle_trace (wle_result H)) | exact Hin].
-Qed.
-
-(* the bits after a successful feature that lets the loop go on are still without Ready *)
-Lemma feature_keeps_nr cfg T f ft req (o : outcome) b :
-  calm_run cfg T -> nth_error (c_feats cfg) f = Some ft -> (f_kind ft = FBind -> req = true) ->
-  builtin_outcome (f_kind ft) o -> In (ENegOk f (fst o) (snd o)) T ->
-  snd o = RSNone -> req = false -> NR b -> NR (N.lor b (fst o)).
-Proof.
-  intros HT Hnth Hbind Hout Hin Hrs Hreq Hnr. unfold NR. rewrite is_ready_lor; [exact Hnr|].
-  destruct (f_kind ft) eqn:Ek; cbn [builtin_outcome] in Hout.
-  - subst o. discriminate.
-  - subst o. discriminate.
-  - specialize (Hbind eq_refl). congruence.
-  - eapply HT; eassumption.
-Qed.
-
-Lemma recv_loop_nr pl cfg T n : forall l negotiated w r w',
-  cache_ok cfg (fl_cache l) -> calm_run cfg T -> NR (w_bits w) ->
-  interp pl (recv_loop n cfg l negotiated) w = (r, w') -> extends T (w_trace w') ->
-  (forall o, r <> ROk o) -> NR (w_bits w').
-Proof.
-  induction n as [|n IH]; intros l negotiated w r w' Hc HT Hnr H Hext Hr.
-  - cbn in H. inversion H; subst. exact Hnr.
-  - rewrite recv_loop_unfold, interp_bind in H.
-    destruct (interp pl (recv_pick n cfg l negotiated) w) as [[x| | |] w1] eqn:Ep;
-      try (inversion H; subst; rewrite (nob_result (recv_pick_nob n cfg l negotiated) Ep); exact Hnr).
-    pose proof (nob_result (recv_pick_nob n cfg l negotiated) Ep) as Hb1.
-    assert (Hx := recv_pick_rets n cfg l negotiated); eapply rets_ok in Hx; [|exact Ep].
-    destruct x as [[[f ft] req] pre]. destruct Hx as [Hfind Hnth].
-    unfold recv_rest in H. rewrite interp_bind in H.
-    destruct (interp pl (run_feature n true f ft pre) w1) as [[o| | |] w2] eqn:Er;
-      try (inversion H; subst; rewrite (run_feature_err_bits Er), Hb1;
-           [exact Hnr | intros o0 Ho; discriminate]).
-    destruct (run_feature_ok Er) as [Hb2 [Hout [Hin Hw12]]].
-    destruct (snd o) eqn:Ers.
-    + destruct req.
-      * inversion H; subst. exfalso. eapply Hr. reflexivity.
-      * eapply IH with (w := w2); try eassumption.
-        rewrite Hb2, Hb1.
-        apply feature_keeps_nr with (cfg := cfg) (T := T) (f := f) (ft := ft) (req := false);
-          try assumption; try reflexivity.
-        { intro Ek. eapply cache_ok_find; eassumption. }
-        rewrite Ers. eapply in_final_trace; [exact H | exact Hext | exact Hin].
-    + inversion H; subst. exfalso. eapply Hr. reflexivity.
-    + inversion H; subst. exfalso. eapply Hr. reflexivity.
-Qed.
+Lemma session_strict n cfg m ns : strict (session n m cfg ns).
+Proof. apply session_wok. Qed.
 
 (* ------------------------------------------------------------------ a nil error and the steps of the run *)
 
-(* Every event of the run is that of a step that succeeded; P: sites of writes whose failure
-   is tolerated. *)
-Definition all_steps_ok (P : wsite -> Prop) (T : list event) : Prop := Forall (clean P) T.
+Definition all_steps_ok (T : list event) : Prop := Forall (clean (fun _ => False)) T.
 
 Lemma run_ok_clean cfg pl bits clear tls calls w :
-  run cfg pl bits clear tls calls = (ROk tt, w) -> all_steps_ok (eq WSuccess) (w_trace w).
+  run cfg pl bits clear tls calls = (ROk tt, w) -> all_steps_ok (w_trace w).
 Proof.
-  unfold run. intro H.
-  eapply (ok_clean (P := eq WSuccess)) in H; [|apply session_wok; reflexivity].
-  destruct H as [new [Ht Hc]]. cbn in Ht. rewrite app_nil_r in Ht. rewrite Ht. exact Hc.
-Qed.
-
-(* Witness observed on the implementation (receiver, SASL PLAIN + bind on a secure
-   connection, exactly the Write that carries <success/> fails): nil error, Ready. *)
-Definition wit_flush_cfg : config :=
-  mkCfg NStd false [mkF FSASL 0 0 true false false; mkF FBind 0 0 true false false].
-Definition wit_flush_clear : list sitem :=
-  [Brk; T Decl; T (Open (KHdr true true false));
-   Brk; T (Open (KSel 0 (EAuth true true))); T (Text false); T Close;
-   Brk; T Decl; T (Open (KHdr true true false));
-   Brk; T (Open (KIq false)); T (Open (KSel 1 EBindReq)); T Close; T Close].
-Definition wit_flush_run : res unit * world :=
-  run wit_flush_cfg (mkPlan (FTransient 4) None true) 9%N wit_flush_clear [] [VStep false SNone; VBind false].
-
-(* evaluated once by the VM; nothing below unfolds the run symbolically *)
-Definition wit_flush_world : world := Eval vm_compute in snd wit_flush_run.
-
-Lemma wit_flush_run_eq :
-  run wit_flush_cfg (mkPlan (FTransient 4) None true) 9%N wit_flush_clear [] [VStep false SNone; VBind false]
-  = (ROk tt, wit_flush_world).
-Proof. vm_compute. reflexivity. Qed.
-
-Lemma wit_flush_failed_write : In (EWrite WSuccess false) (w_trace wit_flush_world).
-Proof. vm_compute. tauto. Qed.
-
-Lemma nil_error_all_ok_refuted :
-  exists cfg pl bits clear tls calls w,
-    run cfg pl bits clear tls calls = (ROk tt, w) /\ ~ all_steps_ok (fun _ => False) (w_trace w).
-Proof.
-  exists wit_flush_cfg, (mkPlan (FTransient 4) None true), 9%N, wit_flush_clear, [], [VStep false SNone; VBind false],
-         wit_flush_world.
-  split.
-  - exact wit_flush_run_eq.
-  - intro HF. unfold all_steps_ok in HF. rewrite Forall_forall in HF.
-    pose proof (HF _ wit_flush_failed_write) as HC. unfold clean in HC.
-    destruct HC as [HC|HC]; [discriminate | exact HC].
-Qed.
-
-(* ------------------------------------------------------------------ the caches that are built satisfy the invariant *)
-
-Lemma list_features_cache_ok cfg bits : forall fs i acc,
-  (forall j ft, nth_error fs j = Some ft -> nth_error (c_feats cfg) (i + j) = Some ft) ->
-  flist_ok cfg acc -> rets (flist_ok cfg) (list_features fs i bits acc).
-Proof.
-  induction fs as [|f fs IH]; intros i acc Hidx Hacc; cbn [list_features].
-  - constructor. exact Hacc.
-  - assert (Hi : nth_error (c_feats cfg) i = Some f).
-    { specialize (Hidx 0 f eq_refl). rewrite Nat.add_0_r in Hidx. exact Hidx. }
-    assert (Hidx' : forall j ft, nth_error fs j = Some ft -> nth_error (c_feats cfg) (S i + j) = Some ft).
-    { intros j ft Hj. specialize (Hidx (S j) ft Hj). rewrite Nat.add_succ_r in Hidx. exact Hidx. }
-    destruct (allowed f bits); [|apply IH; assumption].
-    unfold logev. cbn [bind]. constructor.
-    (* what List reports for the bind feature is "required" *)
-    apply rets_bind2 with (R := fun r : bool => f_kind f = FBind -> r = true).
-    + destruct (f_kind f); struct; congruence.
-    + intros r Hr. apply IH; [exact Hidx'|]. unfold flist_ok. cbn. apply cache_ok_add; [|exact Hacc].
-      intros ft Hn Hk. cbn in Hn. rewrite Hi in Hn. inversion Hn; subst. cbn. apply Hr. exact Hk.
-Qed.
-
-Lemma read_children_cache_ok cfg : forall n acc,
-  flist_ok cfg acc -> rets (flist_ok cfg) (read_children n cfg acc).
-Proof.
-  induction n as [|n IH]; intros acc Hacc; cbn [read_children]; [constructor|].
-  constructor. intro t. destruct t as [c| | | |]; try (constructor; assumption).
-  assert (Hacc1 : flist_ok cfg (mkFL (S (fl_total acc)) (fl_req acc) (fl_cache acc))) by exact Hacc.
-  destruct c; try (apply rets_bind; intros _; apply IH; exact Hacc1).
-  destruct (nth_error (c_feats cfg) f) as [ft|] eqn:En; [|apply rets_bind; intros _; apply IH; exact Hacc1].
-  unfold logev, guard, get_bits. cbn [bind]. constructor.
-  apply rets_bind. intros _. apply rets_bind. intros _. constructor. intro bits.
-  apply IH. unfold flist_ok. cbn [fl_cache].
-  destruct (allowed ft bits); [|exact Hacc].
-  apply cache_ok_add; [|exact Hacc].
-  intros ft' Hn Hk. cbn [fst snd] in *. rewrite En in Hn. inversion Hn; subst. rewrite Hk. reflexivity.
-Qed.
-
-Lemma find_starttls_spec : forall fs i j ft,
-  find_starttls fs i = Some (j, ft) ->
-  f_kind ft = FStartTLS /\ exists d, j = i + d /\ nth_error fs d = Some ft.
-Proof.
-  induction fs as [|f fs IH]; intros i j ft; cbn [find_starttls]; [discriminate|].
-  destruct (f_kind f) eqn:Ek.
-  - intro H. inversion H; subst. split; [exact Ek|]. exists 0. split; [lia | reflexivity].
-  - intro H. apply IH in H. destruct H as [Hk [d [Hj Hd]]]. split; [exact Hk|]. exists (S d). split; [lia | exact Hd].
-  - intro H. apply IH in H. destruct H as [Hk [d [Hj Hd]]]. split; [exact Hk|]. exists (S d). split; [lia | exact Hd].
-  - intro H. apply IH in H. destruct H as [Hk [d [Hj Hd]]]. split; [exact Hk|]. exists (S d). split; [lia | exact Hd].
-Qed.
-
-(* ------------------------------------------------------------------ the initiating side's selection loop *)
-
-(* a forced STARTTLS is the configured STARTTLS feature *)
-Definition force_ok (cfg : config) (force : option (nat * feature)) : Prop :=
-  forall i ft, force = Some (i, ft) -> f_kind ft = FStartTLS /\ nth_error (c_feats cfg) i = Some ft.
-
-Definition init_pick (cfg : config) (l : flist) (force : option (nat * feature))
-  (negotiated : list nat) (bits : N) : prog (option (nat * feature * bool)) :=
-  match force with
-  | Some (i, ft) =>
-      v <- call ;;
-      match v with
-      | VChoice f => if f =? i then Ret (Some (i, ft, true)) else Stuck
-      | _ => Stuck
-      end
-  | None =>
-      let cands := filter (candidate cfg negotiated bits) (fl_cache l) in
-      match cands with
-      | [] => Ret None
-      | _ =>
-          v <- call ;;
-          match v with
-          | VChoice f =>
-              match cache_find f cands, nth_error (c_feats cfg) f with
-              | Some req, Some ft =>
-                  if negb req || forallb (fun e => snd e) cands
-                  then Ret (Some (f, ft, req)) else Stuck
-              | _, _ => Stuck
-              end
-          | _ => Stuck
-          end
-      end
-  end.
-
-Definition init_rest (n : nat) (cfg : config) (l : flist) (force : option (nat * feature))
-  (negotiated : list nat) (pick : option (nat * feature * bool)) : prog outcome :=
-  match pick with
-  | None => Ret (st_Ready, RSNone)
-  | Some (f, ft, req) =>
-      o <- run_feature n false f ft [] ;;
-      match snd o with
-      | RSNone => if req then Ret (after_loop l o) else init_loop n cfg l force (f :: negotiated)
-      | _ => Ret o
-      end
-  end.
-
-Lemma init_loop_unfold pl n cfg l force negotiated w :
-  interp pl (init_loop (S n) cfg l force negotiated) w =
-  interp pl (pick <- init_pick cfg l force negotiated (w_bits w) ;; init_rest n cfg l force negotiated pick) w.
-Proof. reflexivity. Qed.
-
-Lemma init_pick_nob cfg l force negotiated bits : no_orbits (init_pick cfg l force negotiated bits).
-Proof. unfold init_pick. struct. Qed.
-
-Lemma init_pick_wok P cfg l force negotiated bits : wru_ok P (init_pick cfg l force negotiated bits).
-Proof. unfold init_pick. struct. Qed.
-
-(* what is picked: a cached feature with its flag, or the forced STARTTLS *)
-Lemma init_pick_rets cfg l force negotiated bits :
-  cache_ok cfg (fl_cache l) -> force_ok cfg force ->
-  rets (fun pick => forall f ft req, pick = Some (f, ft, req) ->
-                    nth_error (c_feats cfg) f = Some ft /\ (f_kind ft = FBind -> req = true))
-       (init_pick cfg l force negotiated bits).
-Proof.
-  intros Hc Hforce. unfold init_pick, call. cbn [bind].
-  destruct force as [[i fti]|].
-  - destruct (Hforce i fti eq_refl) as [Hk Hn].
-    constructor. intro v. destruct v; try constructor.
-    destruct (f =? i); constructor.
-    intros f0 ft0 req0 H. inversion H; subst. split; [exact Hn|]. intro Hb. congruence.
-  - destruct (filter (candidate cfg negotiated bits) (fl_cache l)) as [|e cands] eqn:Ef.
-    + constructor. intros f ft req H. discriminate.
-    + constructor. intro v. destruct v; try constructor.
-      destruct (cache_find f (e :: cands)) as [req|] eqn:E1; [|constructor].
-      destruct (nth_error (c_feats cfg) f) as [ft|] eqn:E2; [|constructor].
-      destruct (negb req || forallb (fun e0 => snd e0) (e :: cands)); constructor.
-      intros f0 ft0 req0 H. inversion H; subst. split; [exact E2|]. intro Hb.
-      eapply cache_ok_find; [| exact E1 | exact E2 | exact Hb].
-      rewrite <- Ef. apply cache_ok_filter. exact Hc.
-Qed.
-
-Lemma init_loop_nr pl cfg T n : forall l force negotiated w r w',
-  cache_ok cfg (fl_cache l) -> force_ok cfg force -> calm_run cfg T -> NR (w_bits w) ->
-  interp pl (init_loop n cfg l force negotiated) w = (r, w') -> extends T (w_trace w') ->
-  (forall o, r <> ROk o) -> NR (w_bits w').
-Proof.
-  induction n as [|n IH]; intros l force negotiated w r w' Hc Hforce HT Hnr H Hext Hr.
-  - cbn in H. inversion H; subst. exact Hnr.
-  - rewrite init_loop_unfold, interp_bind in H.
-    destruct (interp pl (init_pick cfg l force negotiated (w_bits w)) w) as [[pick| | |] w1] eqn:Ep;
-      try (inversion H; subst; rewrite (nob_result (init_pick_nob cfg l force negotiated (w_bits w)) Ep); exact Hnr).
-    pose proof (nob_result (init_pick_nob cfg l force negotiated (w_bits w)) Ep) as Hb1.
-    assert (Hx := init_pick_rets cfg l force negotiated (w_bits w) Hc Hforce); eapply rets_ok in Hx; [|exact Ep].
-    destruct pick as [[[f ft] req]|]; cbn [init_rest] in H.
-    2: { inversion H; subst. exfalso. eapply Hr. reflexivity. }
-    destruct (Hx f ft req eq_refl) as [Hnth Hbind].
-    rewrite interp_bind in H.
-    destruct (interp pl (run_feature n false f ft []) w1) as [[o| | |] w2] eqn:Er;
-      try (inversion H; subst; rewrite (run_feature_err_bits Er), Hb1;
-           [exact Hnr | intros o0 Ho; discriminate]).
-    destruct (run_feature_ok Er) as [Hb2 [Hout [Hin Hw12]]].
-    destruct (snd o) eqn:Ers.
-    + destruct req.
-      * inversion H; subst. exfalso. eapply Hr. reflexivity.
-      * eapply IH with (w := w2); try eassumption.
-        rewrite Hb2, Hb1.
-        apply feature_keeps_nr with (cfg := cfg) (T := T) (f := f) (ft := ft) (req := false);
-          try assumption; try reflexivity.
-        rewrite Ers. eapply in_final_trace; [exact H | exact Hext | exact Hin].
-    + inversion H; subst. exfalso. eapply Hr. reflexivity.
-    + inversion H; subst. exfalso. eapply Hr. reflexivity.
-Qed.
-
-(* ------------------------------------------------------------------ negotiateFeatures, the negotiators, the session loop *)
-
-Lemma write_features_cache_ok cfg : rets (flist_ok cfg) (write_features cfg).
-Proof.
-  unfold write_features, get_bits, wr. cbn [bind]. constructor. intro bits.
-  apply rets_bind2 with (R := flist_ok cfg).
-  - apply list_features_cache_ok; [intros j ft Hj; exact Hj | constructor].
-  - intros l Hl. constructor. constructor. exact Hl.
-Qed.
-
-Lemma features_receiver_nr pl cfg T n w r w' :
-  calm_run cfg T -> NR (w_bits w) ->
-  interp pl (features_receiver n cfg) w = (r, w') -> extends T (w_trace w') ->
-  (forall o, r <> ROk o) -> NR (w_bits w').
-Proof.
-  intros HT Hnr H Hext Hr. unfold features_receiver in H. rewrite interp_bind in H.
-  destruct (interp pl (write_features cfg) w) as [[l| | |] w1] eqn:Ew;
-    try (inversion H; subst; rewrite (nob_result (write_features_nob cfg) Ew); exact Hnr).
-  assert (Hl := write_features_cache_ok cfg). eapply rets_ok in Hl; [|exact Ew].
-  eapply recv_loop_nr with (w := w1); try eassumption.
-  rewrite (nob_result (write_features_nob cfg) Ew). exact Hnr.
-Qed.
-
-Lemma features_initiator_nr pl cfg T n first w r w' :
-  calm_run cfg T -> NR (w_bits w) ->
-  interp pl (features_initiator n cfg first) w = (r, w') -> extends T (w_trace w') ->
-  (forall o, r <> ROk o) -> NR (w_bits w').
-Proof.
-  intros HT Hnr H Hext Hr. unfold features_initiator in H. cbn [interp] in H.
-  pose proof (read_tok_bits pl w) as Hb0.
-  destruct (read_tok pl w) as [[t|] w0]; cbn [snd] in Hb0;
-    [|inversion H; subst; rewrite Hb0; exact Hnr].
-  destruct t as [c| | | |]; try (cbn [interp] in H; inversion H; subst; rewrite Hb0; exact Hnr).
-  destruct c; try (cbn [interp] in H; inversion H; subst; rewrite Hb0; exact Hnr).
-  rewrite interp_bind in H.
-  destruct (interp pl (read_children n cfg (mkFL 0 false [])) w0) as [[l| | |] w1] eqn:Er;
-    try (inversion H; subst; rewrite (nob_result (read_children_nob n cfg _) Er), Hb0; exact Hnr).
-  pose proof (nob_result (read_children_nob n cfg _) Er) as Hb1.
-  assert (Hl : flist_ok cfg l).
-  { eapply rets_ok; [apply (read_children_cache_ok cfg n (mkFL 0 false [])); constructor | exact Er]. }
-  assert (Hnr1 : NR (w_bits w1)) by (rewrite Hb1, Hb0; exact Hnr).
-  unfold get_bits in H. cbn [bind interp] in H.
-  destruct (find_starttls (c_feats cfg) 0) as [[i fti]|] eqn:Ef.
-  - destruct (first && negb (match cache_find i (fl_cache l) with Some _ => true | None => false end)
-              && negb (has (w_bits w1) st_Secure) && neg_of fti).
-    + eapply init_loop_nr with (w := w1); try eassumption.
-      intros i0 ft0 E0. inversion E0; subst.
-      destruct (find_starttls_spec _ _ _ _ Ef) as [Hk [d [Hi Hd]]]. split; [exact Hk|].
-      rewrite Hi. exact Hd.
-    + destruct (fl_total l =? 0); [inversion H; subst; exfalso; eapply Hr; reflexivity|].
-      destruct (fl_cache l) eqn:Ec; [inversion H; subst; exact Hnr1|].
-      eapply init_loop_nr with (w := w1); try eassumption. intros i0 ft0 E0; discriminate.
-  - destruct (fl_total l =? 0); [inversion H; subst; exfalso; eapply Hr; reflexivity|].
-    destruct (fl_cache l) eqn:Ec; [inversion H; subst; exact Hnr1|].
-    eapply init_loop_nr with (w := w1); try eassumption. intros i0 ft0 E0; discriminate.
-Qed.
-
-(* the header exchange of the standard negotiator *)
-Definition std_pre (n : nat) (cfg : config) (ns : nstate) (recv : bool) : prog unit :=
-  if ns_restart ns then
-    if recv then
-      h <- expect n true (c_ws cfg) ;;
-      guard (fst h) ;;;
-      wr WHeader
-    else
-      wr WHeader ;;;
-      h <- expect n true (c_ws cfg) ;;
-      guard (fst h)
-  else Ret tt.
-
-Definition std_feat (n : nat) (cfg : config) (ns : nstate) (recv : bool) : prog outcome :=
-  if recv then features_receiver n cfg else features_initiator n cfg (negb (ns_started ns)).
-
-Definition std_done (o : outcome) : outcome * nstate :=
-  (o, mkNS (match snd o with RSNone => false | _ => true end) true).
-
-Lemma std_call_unfold pl n cfg ns w :
-  interp pl (std_call n cfg ns) w =
-  interp pl (std_pre n cfg ns (has (w_bits w) st_Received) ;;;
-             o <- std_feat n cfg ns (has (w_bits w) st_Received) ;; Ret (std_done o)) w.
-Proof. reflexivity. Qed.
-
-Lemma std_pre_nob n cfg ns recv : no_orbits (std_pre n cfg ns recv).
-Proof. unfold std_pre. struct. Qed.
-
-Lemma std_pre_wok P n cfg ns recv : wru_ok P (std_pre n cfg ns recv).
-Proof. unfold std_pre. pose proof (expect_wok P n). struct. Qed.
-
-Lemma std_call_nr pl cfg T n ns w r w' :
-  calm_run cfg T -> NR (w_bits w) ->
-  interp pl (std_call n cfg ns) w = (r, w') -> extends T (w_trace w') ->
-  (forall x, r <> ROk x) -> NR (w_bits w').
-Proof.
-  intros HT Hnr H Hext Hr. rewrite std_call_unfold, interp_bind in H.
-  set (recv := has (w_bits w) st_Received) in *.
-  destruct (interp pl (std_pre n cfg ns recv) w) as [[[]| | |] w1] eqn:Ep;
-    try (inversion H; subst; rewrite (nob_result (std_pre_nob n cfg ns recv) Ep); exact Hnr).
-  pose proof (nob_result (std_pre_nob n cfg ns recv) Ep) as Hb1.
-  rewrite interp_bind in H.
-  destruct (interp pl (std_feat n cfg ns recv) w1) as [[o| | |] w2] eqn:Ef.
-  - cbn [interp] in H. inversion H; subst. exfalso. eapply Hr. reflexivity.
-  - inversion H; subst. unfold std_feat in Ef. destruct recv.
-    + eapply features_receiver_nr with (w := w1); try eassumption; [rewrite Hb1; exact Hnr | intros o Ho; discriminate].
-    + eapply features_initiator_nr with (w := w1); try eassumption; [rewrite Hb1; exact Hnr | intros o Ho; discriminate].
-  - inversion H; subst. unfold std_feat in Ef. destruct recv.
-    + eapply features_receiver_nr with (w := w1); try eassumption; [rewrite Hb1; exact Hnr | intros o Ho; discriminate].
-    + eapply features_initiator_nr with (w := w1); try eassumption; [rewrite Hb1; exact Hnr | intros o Ho; discriminate].
-  - inversion H; subst. unfold std_feat in Ef. destruct recv.
-    + eapply features_receiver_nr with (w := w1); try eassumption; [rewrite Hb1; exact Hnr | intros o Ho; discriminate].
-    + eapply features_initiator_nr with (w := w1); try eassumption; [rewrite Hb1; exact Hnr | intros o Ho; discriminate].
-Qed.
-
-(* one call of the configured negotiator *)
-Definition neg_call (n : nat) (cfg : config) (ns : nstate) : prog (outcome * nstate) :=
-  match c_neg cfg with NStd => std_call n cfg ns | NComp => comp_call n end.
-
-Lemma neg_call_nr pl cfg T n ns w r w' :
-  calm_run cfg T -> NR (w_bits w) ->
-  interp pl (neg_call n cfg ns) w = (r, w') -> extends T (w_trace w') ->
-  (forall x, r <> ROk x) -> NR (w_bits w').
-Proof.
-  intros HT Hnr H Hext Hr. unfold neg_call in H. destruct (c_neg cfg).
-  - eapply std_call_nr; eassumption.
-  - rewrite (nob_result (comp_call_nob n) H). exact Hnr.
-Qed.
-
-Lemma session_unfold pl n m cfg ns w :
-  interp pl (session n (S m) cfg ns) w =
-  if is_ready (w_bits w) then (ROk tt, w) else
-  interp pl (r <- neg_call n cfg ns ;;
-             Restart (snd (fst r)) (or_bits (fst (fst r)) ;;; session n m cfg (snd r))) w.
-Proof. cbn [session bind interp get_bits]. destruct (is_ready (w_bits w)); reflexivity. Qed.
-
-Lemma session_zero pl n cfg ns w :
-  interp pl (session n 0 cfg ns) w = if is_ready (w_bits w) then (ROk tt, w) else (RFuel, w).
-Proof. cbn [session bind interp get_bits]. destruct (is_ready (w_bits w)); reflexivity. Qed.
-
-(* an error never leaves the Ready bit behind *)
-Lemma session_nr pl cfg T n : forall m ns w r w',
-  calm_run cfg T -> interp pl (session n m cfg ns) w = (r, w') -> extends T (w_trace w') ->
-  r <> ROk tt -> NR (w_bits w').
-Proof.
-  induction m as [|m IH]; intros ns w r w' HT H Hext Hr.
-  - rewrite session_zero in H. destruct (is_ready (w_bits w)) eqn:Er; inversion H; subst.
-    + exfalso. apply Hr. reflexivity.
-    + exact Er.
-  - rewrite session_unfold in H. destruct (is_ready (w_bits w)) eqn:Er.
-    + inversion H; subst. exfalso. apply Hr. reflexivity.
-    + rewrite interp_bind in H.
-      destruct (interp pl (neg_call n cfg ns) w) as [[x| | |] w1] eqn:Ec.
-      * cbn [interp bind or_bits] in H. eapply IH; eassumption.
-      * inversion H; subst. eapply neg_call_nr with (w := w); try eassumption. intros x Hx; discriminate.
-      * inversion H; subst. eapply neg_call_nr with (w := w); try eassumption. intros x Hx; discriminate.
-      * inversion H; subst. eapply neg_call_nr with (w := w); try eassumption. intros x Hx; discriminate.
+  rewrite run_unfold. intro H. apply finish_ok in H.
+  eapply (ok_clean (P := fun _ => False)) in H; [|apply session_wok].
+  destruct H as [new [Ht Hc]]. cbn in Ht. rewrite app_nil_r in Ht. unfold all_steps_ok. rewrite Ht. exact Hc.
 Qed.
 
 (* ------------------------------------------------------------------ an error result and the Ready bit *)
 
 Lemma run_err_not_ready cfg pl bits clear tls calls r w :
-  run cfg pl bits clear tls calls = (r, w) -> calm_run cfg (w_trace w) ->
-  r <> ROk tt -> is_ready (w_bits w) = false.
+  run cfg pl bits clear tls calls = (r, w) -> r <> ROk tt -> is_ready (w_bits w) = false.
 Proof.
-  unfold run. intros H HT Hr.
-  eapply session_nr; [exact HT | exact H | apply extends_refl | exact Hr].
+  rewrite run_unfold. intros H Hr. eapply finish_not_ready; [exact H|].
+  intros [] E. apply Hr. exact E.
 Qed.
 
-(* Witness observed on the implementation (no fault at all): a voluntary custom feature
-   reports Ready, the required feature negotiated next fails: error, Ready bit set. *)
-Definition wit_ready_cfg : config :=
-  mkCfg NStd false [mkF FCustom 0 0 true false false; mkF FCustom 0 0 true false false].
-Definition wit_ready_clear : list sitem :=
-  [Brk; T Decl; T (Open (KHdr true true true));
-   Brk; T (Open KFeatures); T (Open (KFeat 0 false false)); T Close; T (Open (KFeat 1 true false)); T Close; T Close].
-Definition wit_ready_calls : list sval := [VChoice 0; VOut 4 false false; VChoice 1; VOut 0 false true].
+(* a result other than Ok is an error - or the scripted callback values do not fit the run
+   (RStuck: the case is outside the model); it is never "out of fuel" (Fuel.run_nofuel) *)
+Definition failed (r : res unit) : Prop := r = RErr \/ r = RStuck.
 
-Definition wit_ready_world : world :=
-  Eval vm_compute in snd (run wit_ready_cfg (mkPlan FNone None true) 0%N wit_ready_clear [] wit_ready_calls).
-
-Lemma wit_ready_run_eq :
-  run wit_ready_cfg (mkPlan FNone None true) 0%N wit_ready_clear [] wit_ready_calls = (RErr, wit_ready_world).
-Proof. vm_compute. reflexivity. Qed.
-
-Lemma err_not_ready_refuted :
-  exists cfg pl bits clear tls calls w,
-    run cfg pl bits clear tls calls = (RErr, w) /\ is_ready (w_bits w) = true.
+Lemma not_ok_failed cfg pl bits clear tls calls r w :
+  run cfg pl bits clear tls calls = (r, w) -> r <> ROk tt -> failed r.
 Proof.
-  exists wit_ready_cfg, (mkPlan FNone None true), 0%N, wit_ready_clear, [], wit_ready_calls, wit_ready_world.
-  split; [exact wit_ready_run_eq | vm_compute; reflexivity].
+  intros H Hr. pose proof (run_nofuel cfg pl bits clear tls calls) as Hf. rewrite H in Hf. cbn in Hf.
+  destruct r as [[]| | |]; [exfalso; apply Hr; reflexivity | left; reflexivity | right; reflexivity | exfalso; apply Hf; reflexivity].
 Qed.
 
-(* ------------------------------------------------------------------ cut: surviving the failing operation *)
+(* ------------------------------------------------------------------ a failing operation *)
 
-Arguments run_feature_alive {pl k n recv f ft pre w o w'}.
-
-(* an Ok result of the receiving side's loop: operation k was not performed, or the loop ended
-   with SASL's outcome (whose <success/> flush is the one write that may fail silently) *)
-Lemma recv_loop_cut pl k cfg n : p_fail pl k = true -> forall l negotiated w o w',
-  alive k w -> interp pl (recv_loop n cfg l negotiated) w = (ROk o, w') ->
-  alive k w' \/ o = (st_Authn, RSSame).
+(* The plan pl fails operation k and agrees with pl0 below k; pl0's run performs more than k
+   operations: pl's run does not return Ok, and its Ready bit is clear. *)
+Lemma fault_fails_closed cfg pl0 pl k bits clear tls calls ru wu rc wc :
+  agree_below k pl0 pl -> p_fail pl k = true ->
+  run cfg pl0 bits clear tls calls = (ru, wu) ->
+  run cfg pl bits clear tls calls = (rc, wc) ->
+  k < w_ops wu ->
+  failed rc /\ is_ready (w_bits wc) = false.
 Proof.
-  intro Hf. induction n as [|n IH]; intros l negotiated w o w' Ha H.
-  - cbn in H. discriminate.
-  - rewrite recv_loop_unfold in H. apply interp_bind_ok in H. destruct H as [x [w1 [Ep H]]].
-    assert (Ha1 : alive k w1).
-    { eapply (alive_ok (p := recv_pick n cfg l negotiated)); [exact Hf | apply recv_pick_wok | exact Ha | exact Ep]. }
-    destruct x as [[[f ft] req] pre]. unfold recv_rest in H.
-    apply interp_bind_ok in H. destruct H as [o1 [w2 [Er H]]].
-    destruct (run_feature_ok Er) as [_ [Hout _]].
-    destruct (f_kind ft) eqn:Ek; cbn [builtin_outcome] in Hout.
-    + subst o1. cbn in H. inversion H; subst. left.
-      eapply (run_feature_alive Hf); [ | exact Ha1 | exact Er]; intro; congruence.
-    + subst o1. cbn in H. inversion H; subst. right. reflexivity.
-    + subst o1. assert (Ha2 : alive k w2) by (eapply (run_feature_alive Hf); [ | exact Ha1 | exact Er]; intro; congruence).
-      cbn [snd] in H. destruct req.
-      * cbn in H. inversion H; subst. left. exact Ha2.
-      * eapply IH; eassumption.
-    + assert (Ha2 : alive k w2) by (eapply (run_feature_alive Hf); [ | exact Ha1 | exact Er]; intro; congruence).
-      destruct (snd o1) eqn:Ers.
-      * destruct req; [cbn in H; inversion H; subst; left; exact Ha2 | eapply IH; eassumption].
-      * cbn in H. inversion H; subst. left. exact Ha2.
-      * cbn in H. inversion H; subst. left. exact Ha2.
-Qed.
-
-Lemma neg_call_cut pl k cfg n ns w x w' : p_fail pl k = true ->
-  alive k w -> interp pl (neg_call n cfg ns) w = (ROk x, w') ->
-  alive k w' \/ (fst x = (st_Authn, RSSame) /\ ns_restart (snd x) = true /\
-                 c_neg cfg = NStd /\ has (w_bits w) st_Received = true).
-Proof.
-  intros Hf Ha H. unfold neg_call in H. destruct (c_neg cfg) eqn:Eneg.
-  - rewrite std_call_unfold in H. set (recv := has (w_bits w) st_Received) in *.
-    apply interp_bind_ok in H. destruct H as [[] [w1 [Ep H]]].
-    assert (Ha1 : alive k w1).
-    { eapply (alive_ok (p := std_pre n cfg ns recv)); [exact Hf | apply std_pre_wok | exact Ha | exact Ep]. }
-    apply interp_bind_ok in H. destruct H as [o [w2 [Efe H]]]. cbn [interp] in H. inversion H; subst.
-    unfold std_feat in Efe. destruct recv eqn:Erecv.
-    + unfold features_receiver in Efe. apply interp_bind_ok in Efe. destruct Efe as [l [w3 [Ew El]]].
-      assert (Ha3 : alive k w3).
-      { eapply (alive_ok (p := write_features cfg)); [exact Hf | apply write_features_wok | exact Ha1 | exact Ew]. }
-      destruct (recv_loop_cut pl k cfg n Hf _ _ _ _ _ Ha3 El) as [Ha4|Ho]; [left; exact Ha4|].
-      right. subst o. repeat split; reflexivity.
-    + left. eapply (alive_ok (p := features_initiator n cfg (negb (ns_started ns))));
-        [exact Hf | apply features_initiator_wok | exact Ha1 | exact Efe].
-  - left. eapply (alive_ok (p := comp_call n)); [exact Hf | apply comp_call_wok | exact Ha | exact H].
-Qed.
-
-(* the receiving side's loop ends with a restart: the Ready bit is still clear *)
-Lemma recv_loop_restart_nr pl cfg T n : forall l negotiated w o w',
-  cache_ok cfg (fl_cache l) -> calm_run cfg T -> NR (w_bits w) ->
-  interp pl (recv_loop n cfg l negotiated) w = (ROk o, w') -> extends T (w_trace w') ->
-  snd o <> RSNone -> NR (w_bits w').
-Proof.
-  induction n as [|n IH]; intros l negotiated w o w' Hc HT Hnr H Hext Hrs.
-  - cbn in H. discriminate.
-  - rewrite recv_loop_unfold in H. apply interp_bind_ok in H. destruct H as [x [w1 [Ep H]]].
-    pose proof (nob_result (recv_pick_nob n cfg l negotiated) Ep) as Hb1.
-    assert (Hx := recv_pick_rets n cfg l negotiated); eapply rets_ok in Hx; [|exact Ep].
-    destruct x as [[[f ft] req] pre]. destruct Hx as [Hfind Hnth].
-    unfold recv_rest in H. apply interp_bind_ok in H. destruct H as [o1 [w2 [Er H]]].
-    destruct (run_feature_ok Er) as [Hb2 [Hout [Hin Hw12]]].
-    destruct (snd o1) eqn:Ers.
-    + destruct req.
-      * cbn in H. inversion H; subst. exfalso. apply Hrs. unfold after_loop. rewrite Ers.
-        destruct (fl_req l); [exact Ers | reflexivity].
-      * eapply IH with (w := w2); try eassumption.
-        rewrite Hb2, Hb1.
-        apply feature_keeps_nr with (cfg := cfg) (T := T) (f := f) (ft := ft) (req := false);
-          try assumption; try reflexivity.
-        { intro Ek. eapply cache_ok_find; eassumption. }
-        rewrite Ers. eapply in_final_trace; [exact H | exact Hext | exact Hin].
-    + cbn in H. inversion H; subst. rewrite Hb2, Hb1. unfold NR. rewrite is_ready_lor; [exact Hnr|].
-      destruct (f_kind ft) eqn:Ek; cbn [builtin_outcome] in Hout.
-      * rewrite Hout. reflexivity.
-      * rewrite Hout. reflexivity.
-      * rewrite Hout in Ers. discriminate.
-      * eapply HT; [| exact Hnth | exact Ek]. eapply extends_in; [exact Hext | exact Hin].
-    + cbn in H. inversion H; subst. rewrite Hb2, Hb1. unfold NR. rewrite is_ready_lor; [exact Hnr|].
-      destruct (f_kind ft) eqn:Ek; cbn [builtin_outcome] in Hout.
-      * rewrite Hout. reflexivity.
-      * rewrite Hout. reflexivity.
-      * rewrite Hout in Ers. discriminate.
-      * destruct Hout as [Ho|Ho]; rewrite Ho in Ers; discriminate.
-Qed.
-
-Lemma neg_call_restart_nr pl cfg T n ns w x w' :
-  calm_run cfg T -> NR (w_bits w) -> c_neg cfg = NStd -> has (w_bits w) st_Received = true ->
-  interp pl (neg_call n cfg ns) w = (ROk x, w') -> extends T (w_trace w') ->
-  snd (fst x) <> RSNone -> NR (w_bits w').
-Proof.
-  intros HT Hnr Hneg Hrecv H Hext Hrs. unfold neg_call in H. rewrite Hneg in H.
-  rewrite std_call_unfold, Hrecv in H.
-  apply interp_bind_ok in H. destruct H as [[] [w1 [Ep H]]].
-  pose proof (nob_result (std_pre_nob n cfg ns true) Ep) as Hb1.
-  apply interp_bind_ok in H. destruct H as [o [w2 [Efe H]]]. cbn [interp] in H. inversion H; subst.
-  cbn [std_feat] in Efe. unfold features_receiver in Efe.
-  apply interp_bind_ok in Efe. destruct Efe as [l [w3 [Ew El]]].
-  assert (Hl := write_features_cache_ok cfg). eapply rets_ok in Hl; [|exact Ew].
-  eapply recv_loop_restart_nr with (w := w3); try eassumption.
-  rewrite (nob_result (write_features_nob cfg) Ew), Hb1. exact Hnr.
-Qed.
-
-(* ------------------------------------------------------------------ doomed worlds *)
-
-(* nothing is buffered in the decoder: the next token needs a connection Read *)
-Definition fresh (s : list sitem) : Prop := match s with T _ :: _ => False | _ => True end.
-
-Lemma drop_to_brk_fresh s : fresh (drop_to_brk s).
-Proof. induction s as [|[t|] r IH]; cbn; auto. Qed.
-
-(* from w on every connection operation fails / every ctx test sees a cancelled context *)
-Definition ops_doomed (pl : plan) (w : world) : Prop := forall w2, wle w w2 -> forall b, op_ok pl w2 b = false.
-Definition ctx_doomed (pl : plan) (w : world) : Prop := forall w2, wle w w2 -> ctx_done pl w2 = true.
-Definition doomed (pl : plan) (w : world) : Prop := ops_doomed pl w \/ ctx_doomed pl w.
-
-Lemma doomed_wle pl w w2 : doomed pl w -> wle w w2 -> doomed pl w2.
-Proof.
-  intros [H|H] Hw; [left | right]; intros w3 Hw3; apply H; eapply wle_trans; eassumption.
-Qed.
-
-Lemma read_fresh_fails pl w : ops_doomed pl w -> fresh (w_script w) -> fst (read_tok pl w) = None.
-Proof.
-  intros Hd Hf. unfold read_tok. destruct (w_script w) as [|[t|] r]; cbn [read_tok_from].
-  - reflexivity.
-  - contradiction.
-  - unfold do_read_op. rewrite (Hd w (wle_refl w) false). reflexivity.
-Qed.
-
-(* Expect on an empty decoder buffer does not return in a doomed world *)
-Lemma doomed_expect pl n first ws w : doomed pl w -> fresh (w_script w) ->
-  forall x w', interp pl (expect n first ws) w <> (ROk x, w').
-Proof.
-  intros Hd Hf x w'. destruct n as [|n]; cbn [expect]; [cbn; discriminate|].
-  unfold ctx. cbn [bind interp].
-  destruct (ctx_done pl w) eqn:Ec; [discriminate|].
-  destruct Hd as [Hd|Hd]; [|rewrite (Hd w (wle_refl w)) in Ec; discriminate].
-  assert (Hd1 : ops_doomed pl (set_trace w (ECtxPass (w_ops w)))).
-  { intros w2 Hw2. apply Hd. eapply wle_trans; [apply wle_set_trace | exact Hw2]. }
-  pose proof (read_fresh_fails pl _ Hd1 Hf) as Hr.
-  destruct (read_tok pl (set_trace w (ECtxPass (w_ops w)))) as [[t|] w1]; cbn in Hr; [discriminate | discriminate].
-Qed.
-
-Lemma doomed_write pl s w : ops_doomed pl w -> fst (do_write pl s w) = false.
-Proof. intro Hd. unfold do_write. cbn. apply (Hd w (wle_refl w)). Qed.
-
-Lemma doomed_std_pre pl n cfg ns recv w : doomed pl w -> fresh (w_script w) -> ns_restart ns = true ->
-  forall x w', interp pl (std_pre n cfg ns recv) w <> (ROk x, w').
-Proof.
-  intros Hd Hf Hr x w'. unfold std_pre. rewrite Hr. destruct recv.
-  - rewrite interp_bind.
-    destruct (interp pl (expect n true (c_ws cfg)) w) as [[h| | |] w1] eqn:E; try discriminate.
-    exfalso. eapply doomed_expect; eassumption.
-  - unfold wr. cbn [bind interp].
-    destruct (do_write pl WHeader w) as [ok w1] eqn:Ew. destruct ok; [|discriminate].
-    rewrite interp_bind.
-    assert (Hw1 : wle w w1) by (pose proof (wle_do_write pl WHeader w) as Hx; rewrite Ew in Hx; exact Hx).
-    assert (Hf1 : fresh (w_script w1)) by (unfold do_write in Ew; inversion Ew; subst; exact Hf).
-    destruct (interp pl (expect n true (c_ws cfg)) w1) as [[h| | |] w2] eqn:E; try discriminate.
-    exfalso. eapply doomed_expect; [eapply doomed_wle; eassumption | exact Hf1 | exact E].
-Qed.
-
-Lemma doomed_comp_call pl n w : doomed pl w -> fresh (w_script w) ->
-  forall x w', interp pl (comp_call n) w <> (ROk x, w').
-Proof.
-  intros Hd Hf x w'. unfold comp_call, get_bits, wr. cbn [bind interp].
-  destruct (has (w_bits w) st_Received); [cbn; discriminate|]. cbn [bind interp].
-  destruct (do_write pl WHeader w) as [ok w1] eqn:Ew. destruct ok; [|discriminate].
-  assert (Hw1 : wle w w1) by (pose proof (wle_do_write pl WHeader w) as Hx; rewrite Ew in Hx; exact Hx).
-  assert (Hf1 : fresh (w_script w1)) by (unfold do_write in Ew; inversion Ew; subst; exact Hf).
-  pose proof (doomed_wle pl w w1 Hd Hw1) as Hd1.
-  rewrite interp_bind.
-  destruct n as [|n]; [cbn; discriminate|]. cbn [comp_header]. unfold ctx. cbn [bind interp].
-  destruct (ctx_done pl w1) eqn:Ec; [discriminate|].
-  destruct Hd1 as [Hd1|Hd1]; [|rewrite (Hd1 w1 (wle_refl w1)) in Ec; discriminate].
-  assert (Hd2 : ops_doomed pl (set_trace w1 (ECtxPass (w_ops w1)))).
-  { intros w2 Hw2. apply Hd1. eapply wle_trans; [apply wle_set_trace | exact Hw2]. }
-  pose proof (read_fresh_fails pl _ Hd2 Hf1) as Hr.
-  destruct (read_tok pl (set_trace w1 (ECtxPass (w_ops w1)))) as [[t|] w2]; cbn in Hr; discriminate.
-Qed.
-
-Lemma doomed_neg_call pl cfg n ns w : doomed pl w -> fresh (w_script w) -> ns_restart ns = true ->
-  forall x w', interp pl (neg_call n cfg ns) w <> (ROk x, w').
-Proof.
-  intros Hd Hf Hr x w'. unfold neg_call. destruct (c_neg cfg).
-  - rewrite std_call_unfold, interp_bind.
-    destruct (interp pl (std_pre n cfg ns (has (w_bits w) st_Received)) w) as [[u| | |] w1] eqn:E; try discriminate.
-    exfalso. eapply doomed_std_pre; eassumption.
-  - apply doomed_comp_call; assumption.
-Qed.
-
-(* ------------------------------------------------------------------ the session loop under a fault at operation k *)
-
-Lemma alive_dec k w : {alive k w} + {k < w_ops w}.
-Proof. unfold alive. destruct (le_lt_dec (w_ops w) k); [left | right]; assumption. Qed.
-
-(* An Ok result means that operation k was never performed, provided it fails and everything
-   after it is doomed (all later operations fail, or the context is seen cancelled). *)
-Lemma session_survive pl k cfg T n :
-  p_fail pl k = true -> (forall w, k < w_ops w -> doomed pl w) -> calm_run cfg T ->
-  forall m ns w w',
-    interp pl (session n m cfg ns) w = (ROk tt, w') -> extends T (w_trace w') ->
-    (alive k w \/ (fresh (w_script w) /\ ns_restart ns = true /\ NR (w_bits w))) ->
-    alive k w'.
-Proof.
-  intros Hf Hdoom HT. induction m as [|m IH]; intros ns w w' H Hext Hst.
-  - rewrite session_zero in H. destruct (is_ready (w_bits w)) eqn:Er; [|discriminate].
-    inversion H; subst. destruct Hst as [Ha|[_ [_ Hnr]]]; [exact Ha | unfold NR in Hnr; congruence].
-  - rewrite session_unfold in H. destruct (is_ready (w_bits w)) eqn:Er.
-    + inversion H; subst. destruct Hst as [Ha|[_ [_ Hnr]]]; [exact Ha | unfold NR in Hnr; congruence].
-    + apply interp_bind_ok in H. destruct H as [x [w1 [Ec H]]].
-      cbn [interp bind or_bits] in H.
-      destruct (alive_dec k w) as [Ha|Hlt].
-      * (* operation k not yet performed *)
-        destruct (neg_call_cut pl k cfg n ns w x w1 Hf Ha Ec) as [Ha1|[Hx [Hrs [Hneg Hrecv]]]].
-        -- eapply IH; [exact H | exact Hext | left].
-           unfold alive in *. destruct (snd (fst x)); cbn; exact Ha1.
-        -- eapply IH; [exact H | exact Hext | right].
-           rewrite Hx. cbn [fst snd do_restart w_script w_bits].
-           split; [apply drop_to_brk_fresh|]. split; [exact Hrs|].
-           unfold NR. rewrite is_ready_lor; [|reflexivity].
-           eapply neg_call_restart_nr with (w := w); try eassumption.
-           ++ pose proof (wle_trace (wle_result H)) as Ht. cbn in Ht.
-              rewrite Hx in Ht. cbn in Ht. eapply extends_trans; eassumption.
-           ++ rewrite Hx. cbn. discriminate.
-      * (* operation k has failed and was survived: only right after SASL's restart *)
-        destruct Hst as [Ha|[Hfr [Hrs Hnr]]]; [unfold alive in Ha; lia|].
-        exfalso. eapply doomed_neg_call; [apply Hdoom; exact Hlt | exact Hfr | exact Hrs | exact Ec].
-Qed.
-
-Lemma cut_dooms k c hs w : k < w_ops w -> doomed (mkPlan (FCut k) c hs) w.
-Proof.
-  intro Hlt. left. intros w2 Hw2 b. unfold op_ok, p_fail. cbn [p_fault].
-  pose proof (wle_ops Hw2) as Ho.
-  assert (E : (k <=? w_ops w2) = true) by (apply Nat.leb_le; lia). rewrite E. reflexivity.
-Qed.
-
-(* the cut run and the un-faulted run *)
-Lemma cut_fails_closed cfg c hs bits clear tls calls k ru wu rc wc :
-  run cfg (mkPlan FNone c hs) bits clear tls calls = (ru, wu) ->
-  run cfg (mkPlan (FCut k) c hs) bits clear tls calls = (rc, wc) ->
-  k < w_ops wu -> calm_run cfg (w_trace wc) ->
-  rc <> ROk tt /\ is_ready (w_bits wc) = false.
-Proof.
-  intros Hu Hc Hk HT.
+  intros Hag Hf Hu Hc Hk.
   assert (Hne : rc <> ROk tt).
-  { intro E. subst rc.
-    (* an Ok cut run never performed operation k ... *)
+  { intro E. subst rc. rewrite run_unfold in Hu, Hc.
+    pose proof Hc as Hci. apply finish_ok in Hci.
     assert (Ha : alive k wc).
-    { unfold run in Hc. eapply session_survive with (pl := mkPlan (FCut k) c hs) (k := k);
-        [ | intros w Hw; apply cut_dooms; exact Hw | exact HT | exact Hc | apply extends_refl | left; unfold alive; cbn; lia].
-      unfold p_fail. cbn. apply Nat.leb_refl. }
-    (* ... so it coincides with the un-faulted run, which performed more than k operations *)
-    assert (Hag : agree_below k (mkPlan FNone c hs) (mkPlan (FCut k) c hs)).
-    { split; [|split; [intros w0 _; reflexivity | reflexivity]]. intros i Hi. unfold p_fail. cbn.
-      symmetry. apply Nat.leb_gt. exact Hi. }
-    unfold run in Hu, Hc.
-    pose proof (interp_agree (session (fuel_of clear tls) (fuel_of clear tls) cfg (mkNS true false)) Hag
-                  (init_world bits clear tls calls)) as Hco.
-    unfold coincide_or_pass in Hco. rewrite Hu, Hc in Hco. cbn [snd] in Hco.
+    { eapply (alive_ok (p := the_session cfg clear tls)); [exact Hf | apply session_strict | | exact Hci].
+      unfold alive. cbn. lia. }
+    pose proof (interp_agree (the_session cfg clear tls) Hag (init_world bits clear tls calls)) as Hco.
+    unfold coincide_or_pass in Hco.
+    assert (Hou : w_ops wu = w_ops (snd (interp pl0 (the_session cfg clear tls) (init_world bits clear tls calls)))).
+    { rewrite <- finish_ops, Hu. reflexivity. }
+    rewrite Hci in Hco. cbn [snd] in Hco.
     destruct Hco as [[_ Hle]|[_ Hgt]]; [cbn; lia | lia | unfold alive in Ha; lia]. }
-  split; [exact Hne|]. eapply run_err_not_ready; eassumption.
+  split; [eapply not_ok_failed; eassumption|]. eapply run_err_not_ready; eassumption.
 Qed.
 
-(* ------------------------------------------------------------------ cancellation *)
-
-(* The context is cancelled while operation c is blocked: the operation fails (deadline
-   pulse) and every later ctx test sees the cancellation. *)
-Lemma cancel_dooms c hs w : c < w_ops w -> doomed (mkPlan (FTransient c) (Some c) hs) w.
+Lemma cut_agrees k c hs : agree_below k (mkPlan FNone c hs) (mkPlan (FCut k) c hs).
 Proof.
-  intro Hlt. right. intros w2 Hw2. unfold ctx_done. cbn [p_cancel].
-  pose proof (wle_ops Hw2) as Ho. apply Nat.ltb_lt. lia.
+  split; [|split; [intros w0 _; reflexivity | reflexivity]]. intros i Hi. unfold p_fail. cbn.
+  symmetry. apply Nat.leb_gt. exact Hi.
 Qed.
 
-Lemma cancel_blocked_fails cfg hs bits clear tls calls c ru wu rc wc :
-  run cfg (mkPlan FNone None hs) bits clear tls calls = (ru, wu) ->
-  run cfg (mkPlan (FTransient c) (Some c) hs) bits clear tls calls = (rc, wc) ->
-  c < w_ops wu -> calm_run cfg (w_trace wc) ->
-  rc <> ROk tt /\ is_ready (w_bits wc) = false.
+Lemma transient_agrees k c hs : agree_below k (mkPlan FNone c hs) (mkPlan (FTransient k) c hs).
 Proof.
-  intros Hu Hc Hk HT.
-  assert (Hne : rc <> ROk tt).
-  { intro E. subst rc.
-    assert (Ha : alive c wc).
-    { unfold run in Hc. eapply session_survive with (pl := mkPlan (FTransient c) (Some c) hs) (k := c);
-        [ | intros w Hw; apply cancel_dooms; exact Hw | exact HT | exact Hc | apply extends_refl | left; unfold alive; cbn; lia].
-      unfold p_fail. cbn. apply Nat.eqb_refl. }
-    assert (Hag : agree_below c (mkPlan FNone None hs) (mkPlan (FTransient c) (Some c) hs)).
-    { split; [|split; [|reflexivity]].
-      - intros i Hi. unfold p_fail. cbn. symmetry. apply Nat.eqb_neq. lia.
-      - intros w0 Hw0. unfold ctx_done. cbn. symmetry. apply Nat.ltb_ge. exact Hw0. }
-    unfold run in Hu, Hc.
-    pose proof (interp_agree (session (fuel_of clear tls) (fuel_of clear tls) cfg (mkNS true false)) Hag
-                  (init_world bits clear tls calls)) as Hco.
-    unfold coincide_or_pass in Hco. rewrite Hu, Hc in Hco. cbn [snd] in Hco.
-    destruct Hco as [[_ Hle]|[_ Hgt]]; [cbn; lia | lia | unfold alive in Ha; lia]. }
-  split; [exact Hne|]. eapply run_err_not_ready; eassumption.
+  split; [|split; [intros w0 _; reflexivity | reflexivity]]. intros i Hi. unfold p_fail. cbn.
+  symmetry. apply Nat.eqb_neq. lia.
 Qed.
 
-(* The context is cancelled between two operations (at the entry of operation c, the
-   deadline pulse leaves no trace): if the un-cancelled run makes a ctx test later than that,
-   the cancelled run ends in an error. *)
-Lemma cancel_before_ctx_test cfg f hs bits clear tls calls c n ru wu rc wc :
+Lemma blocked_agrees c hs : agree_below c (mkPlan FNone None hs) (mkPlan (FTransient c) (Some c) hs).
+Proof.
+  split; [|split; [|reflexivity]].
+  - intros i Hi. unfold p_fail. cbn. symmetry. apply Nat.eqb_neq. lia.
+  - intros w0 Hw0. unfold ctx_done. cbn. symmetry. apply Nat.ltb_ge. exact Hw0.
+Qed.
+
+Lemma cut_fails_closed :
+  forall cfg c hs bits clear tls calls k ru wu rc wc,
+    run cfg (mkPlan FNone c hs) bits clear tls calls = (ru, wu) ->
+    run cfg (mkPlan (FCut k) c hs) bits clear tls calls = (rc, wc) ->
+    k < w_ops wu ->
+    failed rc /\ is_ready (w_bits wc) = false.
+Proof.
+  intros cfg c hs bits clear tls calls k ru wu rc wc Hu Hc Hk.
+  eapply fault_fails_closed; [apply cut_agrees | | exact Hu | exact Hc | exact Hk].
+  unfold p_fail. cbn. apply Nat.leb_refl.
+Qed.
+
+Lemma transient_fails_closed :
+  forall cfg c hs bits clear tls calls k ru wu rc wc,
+    run cfg (mkPlan FNone c hs) bits clear tls calls = (ru, wu) ->
+    run cfg (mkPlan (FTransient k) c hs) bits clear tls calls = (rc, wc) ->
+    k < w_ops wu ->
+    failed rc /\ is_ready (w_bits wc) = false.
+Proof.
+  intros cfg c hs bits clear tls calls k ru wu rc wc Hu Hc Hk.
+  eapply fault_fails_closed; [apply transient_agrees | | exact Hu | exact Hc | exact Hk].
+  unfold p_fail. cbn. apply Nat.eqb_refl.
+Qed.
+
+Lemma cancel_while_blocked_fails :
+  forall cfg hs bits clear tls calls c ru wu rc wc,
+    run cfg (mkPlan FNone None hs) bits clear tls calls = (ru, wu) ->
+    run cfg (mkPlan (FTransient c) (Some c) hs) bits clear tls calls = (rc, wc) ->
+    c < w_ops wu ->
+    failed rc /\ is_ready (w_bits wc) = false.
+Proof.
+  intros cfg hs bits clear tls calls c ru wu rc wc Hu Hc Hk.
+  eapply fault_fails_closed; [apply blocked_agrees | | exact Hu | exact Hc | exact Hk].
+  unfold p_fail. cbn. apply Nat.eqb_refl.
+Qed.
+
+(* ------------------------------------------------------------------ cancellation between two operations *)
+
+Lemma session_zero pl n cfg ns w :
+  interp pl (session n 0 cfg ns) w = if is_ready (w_bits w) then (ROk tt, w) else (RFuel, w).
+Proof. cbn [session bind interp get_bits]. destruct (is_ready (w_bits w)); reflexivity. Qed.
+
+Lemma do_restart_ops rs w : w_ops (do_restart rs w) = w_ops w.
+Proof. destruct rs; reflexivity. Qed.
+
+Lemma do_restart_trace rs w : w_trace (do_restart rs w) = w_trace w.
+Proof. destruct rs; reflexivity. Qed.
+
+(* an Ok session was ready from the start, or its last ctx test was made after its last operation *)
+Lemma session_ok_ctx pl n cfg : forall m ns w w',
+  interp pl (session n m cfg ns) w = (ROk tt, w') ->
+  (w' = w /\ is_ready (w_bits w) = true) \/ In (ECtxPass (w_ops w')) (w_trace w').
+Proof.
+  induction m as [|m IH]; intros ns w w' H.
+  - rewrite session_zero in H. destruct (is_ready (w_bits w)) eqn:Er; [|discriminate].
+    inversion H; subst. left. split; [reflexivity | first [exact Er | reflexivity]].
+  - rewrite session_unfold in H. destruct (is_ready (w_bits w)) eqn:Er.
+    + inversion H; subst. left. split; [reflexivity | first [exact Er | reflexivity]].
+    + right. apply interp_bind_ok in H. destruct H as [x [w1 [Ec H]]].
+      unfold ctx, or_bits in H. cbn [bind interp] in H.
+      destruct (ctx_done pl w1); [discriminate|].
+      apply IH in H. destruct H as [[Hw _]|Hin]; [|exact Hin].
+      subst w'. cbn [w_ops w_trace]. rewrite do_restart_ops, do_restart_trace. cbn. left. reflexivity.
+Qed.
+
+Lemma cancel_fails cfg f hs bits clear tls calls c ru wu rc wc :
   run cfg (mkPlan f None hs) bits clear tls calls = (ru, wu) ->
-  In (ECtxPass n) (w_trace wu) -> c < n ->
+  c < w_ops wu ->
   run cfg (mkPlan f (Some c) hs) bits clear tls calls = (rc, wc) ->
-  rc = RErr.
+  failed rc /\ is_ready (w_bits wc) = false.
 Proof.
-  unfold run. intros Hu Hin Hlt Hc.
-  destruct (interp_cancel (P := eq WSuccess) f hs c
-              (session_wok (eq WSuccess) (fuel_of clear tls) cfg eq_refl (fuel_of clear tls) (mkNS true false))
-              (init_world bits clear tls calls)) as [He|[_ [new [Hn Hp]]]].
-  - rewrite Hc in He. exact He.
-  - exfalso. rewrite Hu in Hn. cbn in Hn. rewrite app_nil_r in Hn. rewrite Hn in Hin.
-    specialize (Hp n Hin). lia.
-Qed.
-
-(* Witness observed on the implementation: initiator, header and empty features list in two
-   Reads, context cancelled when the second Read (operation 1... of 3) is entered. *)
-Definition wit_cancel_cfg : config := mkCfg NStd false [].
-Definition wit_cancel_clear : list sitem :=
-  [Brk; T Decl; T (Open (KHdr true true true)); Brk; T (Open KFeatures); T Close].
-
-Definition wit_cancel_world : world :=
-  Eval vm_compute in snd (run wit_cancel_cfg (mkPlan FNone (Some 1) true) 0%N wit_cancel_clear [] []).
-
-Lemma wit_cancel_run_eq :
-  run wit_cancel_cfg (mkPlan FNone (Some 1) true) 0%N wit_cancel_clear [] [] = (ROk tt, wit_cancel_world).
-Proof. vm_compute. reflexivity. Qed.
-
-Definition wit_cancel_uworld : world :=
-  Eval vm_compute in snd (run wit_cancel_cfg (mkPlan FNone None true) 0%N wit_cancel_clear [] []).
-
-Lemma wit_cancel_urun_eq :
-  run wit_cancel_cfg (mkPlan FNone None true) 0%N wit_cancel_clear [] [] = (ROk tt, wit_cancel_uworld).
-Proof. vm_compute. reflexivity. Qed.
-
-Lemma cancel_before_completion_refuted :
-  exists cfg f hs bits clear tls calls c ru wu wc,
-    run cfg (mkPlan f None hs) bits clear tls calls = (ru, wu) /\
-    c < w_ops wu /\
-    run cfg (mkPlan f (Some c) hs) bits clear tls calls = (ROk tt, wc).
-Proof.
-  exists wit_cancel_cfg, FNone, true, 0%N, wit_cancel_clear, [], [], 1, (ROk tt), wit_cancel_uworld, wit_cancel_world.
-  split; [exact wit_cancel_urun_eq|]. split; [vm_compute; lia | exact wit_cancel_run_eq].
-Qed.
-
-(* ------------------------------------------------------------------ a checker for calm_run *)
-
-Definition calm_evb (cfg : config) (e : event) : bool :=
-  match e with
-  | ENegOk f m _ =>
-      match nth_error (c_feats cfg) f with
-      | Some ft => match f_kind ft with FCustom => N.eqb (N.land m st_Ready) 0 | _ => true end
-      | None => true
-      end
-  | _ => true
-  end.
-
-Lemma calm_runb_sound cfg T : forallb (calm_evb cfg) T = true -> calm_run cfg T.
-Proof.
-  intros H f m rs ft Hin Hn Hk. rewrite forallb_forall in H. specialize (H _ Hin).
-  cbn in H. rewrite Hn, Hk in H. apply N.eqb_eq. exact H.
+  intros Hu Hk Hc.
+  assert (Hne : rc <> ROk tt).
+  { intro E. subst rc. rewrite run_unfold in Hu, Hc. apply finish_ok in Hc.
+    destruct (interp_cancel (P := fun _ => False) f hs c (session_wok (fun _ => False) (fuel_of clear tls) cfg (fuel_of clear tls) (mkNS true false))
+                (init_world bits clear tls calls)) as [He|[Heq [new [Hn Hp]]]].
+    - fold (the_session cfg clear tls) in He. rewrite Hc in He. discriminate.
+    - fold (the_session cfg clear tls) in Heq, Hn. rewrite Hc in Heq.
+      assert (Hwu : wu = wc).
+      { rewrite <- Heq in Hu. cbn in Hu. inversion Hu. reflexivity. }
+      subst wu. rewrite <- Heq in Hn. cbn [snd] in Hn. cbn [init_world w_trace] in Hn. rewrite app_nil_r in Hn.
+      pose proof Hc as Hs. apply session_ok_ctx in Hs. destruct Hs as [[Hw _]|Hin].
+      + subst wc. cbn in Hk. lia.
+      + rewrite Hn in Hin. specialize (Hp _ Hin). lia. }
+  split; [eapply not_ok_failed; eassumption|]. eapply run_err_not_ready; eassumption.
 Qed.
